@@ -1400,6 +1400,22 @@ func (c *Ctx) ruleRulesBeforeLoad() {
 					if as, ok := m.(*ast.AssignStmt); ok {
 						for i, l := range as.Lhs {
 							if lid, ok := l.(*ast.Ident); ok && (pk.TypesInfo.Defs[lid] == obj || pk.TypesInfo.Uses[lid] == obj) && i < len(as.Rhs) {
+								// a wrapper made here around a schema made here: &T{JSchema: jschema.New(...)}
+								rhs := ast.Unparen(as.Rhs[i])
+								if u, ok := rhs.(*ast.UnaryExpr); ok && u.Op == token.AND {
+									rhs = ast.Unparen(u.X)
+								}
+								if lit, ok := rhs.(*ast.CompositeLit); ok {
+									for _, el := range lit.Elts {
+										v := el
+										if kv, ok := el.(*ast.KeyValueExpr); ok {
+											v = kv.Value
+										}
+										if cc, ok := ast.Unparen(v).(*ast.CallExpr); ok && strings.Contains(exprString(cc.Fun), "New") {
+											fresh = true
+										}
+									}
+								}
 								if cc, ok := ast.Unparen(as.Rhs[i]).(*ast.CallExpr); ok {
 									name := exprString(cc.Fun)
 									if strings.HasSuffix(name, ".New") || strings.HasPrefix(name, "new") || strings.Contains(name, "New") {
